@@ -38,9 +38,8 @@ class Op:
         self.loop = sim.world.spawn(name)
         self.program = OperatorProgram(sim, name, spec)
         self.settings = make_settings(spec)
-        if any(h.get('sync') for h in spec.get('handlers', [])):
-            # synchronous handlers run in harness-owned threads that are serialised with the world (kopfsim/threads.py)
-            self.settings.execution.executor = sim.threads.executor(name)
+        # synchronous handlers (if any) run in harness-owned threads that are serialised with the world (kopfsim/threads.py)
+        self.settings.execution.executor = sim.threads.executor(name)
         self.stop_flag = None
         self.stop_pending = False     # a stop requested before the process got to run at all
         self.ready_flag = None
